@@ -620,15 +620,27 @@ def H.scoped (vars : List (String × Ty)) : H → Bool
   | .le a b | .lt a b | .ge a b | .gt a b | .max a b | .min a b => a.scoped vars && b.scoped vars
   | .ite c a b => c.scoped vars && a.scoped vars && b.scoped vars
 
-/-- No capture when z3py abstracts the named constant of a binder: the name of every quantifier
-differs from the names of the enclosing quantifiers (`outer`) and from the free names `base`. -/
-def Z.bindersFresh (base : List String) : List String → Z → Bool
+/-- names of the (nullary) constants occurring in a Z3 term -/
+def Z.constNames : Z → List String
+  | .const x _ => [x]
+  | .bconst _ | .ilit _ | .rlit _ | .bv .. => []
+  | .not a | .neg a | .toReal a | .app _ _ _ a => a.constNames
+  | .and a b | .or a b | .imp a b | .eq a b | .add a b | .sub a b | .mul a b
+  | .div a b | .le a b | .lt a b | .ge a b | .gt a b => a.constNames ++ b.constNames
+  | .ite c a b => c.constNames ++ a.constNames ++ b.constNames
+  | .all _ _ b | .ex _ _ b => b.constNames
+
+/-- No capture when z3py abstracts the named constant of a binder (`z3.ForAll(Const(nm), body)`
+binds every occurrence of the constant nm in body): the name of every quantifier differs from the
+names of the enclosing quantifiers (`outer`) and from every constant occurring in its body (the
+bound occurrences themselves are de Bruijn indices in this model). -/
+def Z.noCapture : List String → Z → Bool
   | _, .bconst _ | _, .ilit _ | _, .rlit _ | _, .const .. | _, .bv .. => true
-  | o, .not a | o, .neg a | o, .toReal a | o, .app _ _ _ a => a.bindersFresh base o
+  | o, .not a | o, .neg a | o, .toReal a | o, .app _ _ _ a => a.noCapture o
   | o, .and a b | o, .or a b | o, .imp a b | o, .eq a b | o, .add a b | o, .sub a b | o, .mul a b
-  | o, .div a b | o, .le a b | o, .lt a b | o, .ge a b | o, .gt a b => a.bindersFresh base o && b.bindersFresh base o
-  | o, .ite c a b => c.bindersFresh base o && a.bindersFresh base o && b.bindersFresh base o
-  | o, .all x _ b | o, .ex x _ b => !(o.contains x) && !(base.contains x) && b.bindersFresh base (x :: o)
+  | o, .div a b | o, .le a b | o, .lt a b | o, .ge a b | o, .gt a b => a.noCapture o && b.noCapture o
+  | o, .ite c a b => c.noCapture o && a.noCapture o && b.noCapture o
+  | o, .all x _ b | o, .ex x _ b => !(o.contains x) && !(b.constNames.contains x) && b.noCapture (x :: o)
 
 /-- The abstract solver: `check zs = true` means it answered `unsat` for the assertions zs. -/
 structure Solver where
